@@ -201,6 +201,25 @@ def run(tier="quick", seed=0, pid=None):
         pass
     if bad != keep:
         fail("C15", "argument_unchanged", {"value": repr(keep)}, "failed load left %r" % (bad,))
+    # C15: load never writes into what it is given, whatever the shape of the descriptor (well formed or not)
+    names = ["decimal.Decimal", MOD + ".DictBean", MOD + ".Custom", "no.such.module.K", "bad-name", "", 5, None]
+    argshapes = ["<absent>", [], ["1"], {"a": 1}, [1, 2], None, "x", [[1]], {}]
+    for nm in names:
+        for a in argshapes:
+            for extra in ({}, {"public": [1, {"k": (2,)}]}, {"nested": {"__jsonclass__": ["no.such.module.K", []]}}):
+                desc = [nm] if a == "<absent>" else [nm, a]
+                d = dict(extra)
+                d["__jsonclass__"] = desc
+                for wrap in (lambda x: x, lambda x: [x], lambda x: {"k": x}):
+                    arg = wrap(d)
+                    keep = copy.deepcopy(arg)
+                    n += 1
+                    try:
+                        JC.load(arg)
+                    except Exception:      # noqa
+                        pass
+                    if repr(arg) != repr(keep):
+                        fail("C15", "argument_unchanged", {"value": repr(keep)}, "load left %r" % (arg,))
     # C07: class shapes, at top level, nested, module-qualified and through the local class table
     shapes = ["DictBean", "SlotBean", "MangledSlotBean", "Child1", "Child2", "Child3", "SlotChild", "Custom", "CustomKw"]
     for name in shapes:
